@@ -27,6 +27,9 @@ def main():
         elif a.prop == 'C15':
             from . import convcheck
             rc = convcheck.check_c15(a.tier, seed)
+        elif a.prop == 'C16':
+            from . import kbdcheck
+            rc = kbdcheck.check(a.prop, a.tier, seed)
         elif a.prop == 'C17':
             from . import esccheck
             rc = esccheck.check(a.prop, a.tier, seed)
